@@ -122,6 +122,7 @@ fn shift_ids(s: &str, shift: usize) -> String {
 // Stage A: real engine histories
 // ------------------------------------------------------------------------------------------------
 #[derive(Clone)]
+#[allow(dead_code)]
 struct Taken {
     meta: BackupMetadata,
     census: Census,
@@ -265,8 +266,10 @@ fn run_history(seed: u64, idx: usize, work: &Path, backups_per_history: usize) -
                 let s = format!("{:#}", e);
                 acc.bump(&format!("backup_refused:{}", create_err_class(&s)));
                 program.push(json!({"backup_refused": s}));
-                if !s.contains("No new WAL files") {
-                    acc.fails.push(json!({"stage": "A", "why": format!("backup of a quiescent engine directory refused: {}", s), "class": null, "program": program, "cfg": cfg, "replay": {"stage": "A", "seed": seed, "index": idx}}));
+                // "No new WAL files" is legitimate only when nothing was logged since the parent backup
+                let unchanged = taken.last().map(|t| t.census == census).unwrap_or(false);
+                if !s.contains("No new WAL files") || !unchanged {
+                    acc.fails.push(json!({"stage": "A", "why": format!("backup of a quiescent engine directory refused{}: {}", if unchanged { "" } else { " although the collection changed since the parent backup" }, s), "class": null, "program": program, "cfg": cfg, "replay": {"stage": "A", "seed": seed, "index": idx}}));
                 }
             }
         }
@@ -507,16 +510,39 @@ fn run_tamper(seed: u64, idx: usize, root: &Path, taken: &[Taken], budget: usize
         muts.extend(archive_mutations(&an, &std::fs::read(bk2.join(&an)).unwrap(), &mut r, budget));
         muts.extend(metadata_mutations(&jn, &std::fs::read(bk2.join(&jn)).unwrap(), &mut r));
     }
-    let tgt = work.join("tgt");
-    for m in &muts {
-        let path = bk2.join(&m.file);
-        let orig = std::fs::read(&path).unwrap();
-        std::fs::write(&path, apply_mutation(&orig, m)).unwrap();
-        let _ = std::fs::remove_dir_all(&tgt);
-        write_files(&sentinels, &tgt);
-        let res = RestoreManager::new(&bk2, &tgt).unwrap().restore_from_backup_with_options(tip.meta.id, &ClearDirectoryOptions::new().with_allow_clear(true));
-        let after = read_files(&tgt);
-        std::fs::write(&path, &orig).unwrap();
+    // run the mutations on private copies of the backup directory, in parallel
+    let workers = 8usize.min(muts.len().max(1));
+    let results: Mutex<Vec<(usize, Option<String>, Files)>> = Mutex::new(Vec::with_capacity(muts.len()));
+    let tip_id = tip.meta.id;
+    std::thread::scope(|sc| {
+        for w in 0..workers {
+            let (muts, bk2, work, sentinels, results) = (&muts, &bk2, &work, &sentinels, &results);
+            sc.spawn(move || {
+                let bkw = work.join(format!("bk_w{}", w));
+                copy_dir(bk2, &bkw);
+                let tgt = work.join(format!("tgt_w{}", w));
+                let mut local = vec![];
+                for (j, m) in muts.iter().enumerate() {
+                    if j % workers != w { continue; }
+                    let path = bkw.join(&m.file);
+                    let orig = std::fs::read(&path).unwrap();
+                    std::fs::write(&path, apply_mutation(&orig, m)).unwrap();
+                    let _ = std::fs::remove_dir_all(&tgt);
+                    write_files(sentinels, &tgt);
+                    let res = RestoreManager::new(&bkw, &tgt).unwrap().restore_from_backup_with_options(tip_id, &ClearDirectoryOptions::new().with_allow_clear(true));
+                    let after = read_files(&tgt);
+                    std::fs::write(&path, &orig).unwrap();
+                    local.push((j, res.err().map(|e| format!("{:#}", e)), after));
+                }
+                results.lock().unwrap().extend(local);
+            });
+        }
+    });
+    let mut results = results.into_inner().unwrap();
+    results.sort_by_key(|x| x.0);
+    for (j, err, after) in results {
+        let m = &muts[j];
+        let res: Result<(), String> = match err { Some(e) => Err(e), None => Ok(()) };
         let role = if m.file.contains(&tip.meta.id.to_string()) { "tip" } else { "ancestor" };
         let desc = json!({"file_role": role, "file_kind": if m.file.ends_with(".tar") { "archive" } else { "metadata" }, "position": m.what, "mutation": m.kind, "offset": m.offset, "xor": m.xor});
         let key = format!("B:{}:{}:{}:{}:{}", idx, m.file, m.kind, m.offset, m.xor);
@@ -530,7 +556,7 @@ fn run_tamper(seed: u64, idx: usize, root: &Path, taken: &[Taken], budget: usize
             }
             Err(e) => {
                 acc.bump("tamper_failure:rejected-after-touching");
-                acc.fails.push(json!({"stage": "B", "why": format!("altered backup was rejected only AFTER the target directory had been modified: {:#}", e), "class": null, "damage": desc,
+                acc.fails.push(json!({"stage": "B", "why": format!("altered backup was rejected only AFTER the target directory had been modified: {}", e), "class": null, "damage": desc,
                     "target_before": sentinels.keys().collect::<Vec<_>>(), "target_after": after.keys().collect::<Vec<_>>(), "replay": {"stage": "B", "seed": seed, "index": idx}}));
             }
             Ok(()) => {
@@ -611,7 +637,12 @@ fn run_prune(seed: u64, n: usize, work: &Path, only: Option<usize>) -> Acc {
                 Ok(d) => d,
                 Err(e) => { acc.fails.push(json!({"stage": "C", "why": format!("prune_backups failed: {:#}", e), "class": null, "replay": {"stage": "C", "seed": seed, "index": i}})); break; }
             };
-            if now_secs() != now && attempt < 4 { continue; }
+            if now_secs() != now {
+                // the wall clock moved to the next second while prune ran: its `now` is unknown, redo
+                if attempt < 6 { continue; }
+                acc.bump("prune_skipped_clock_moved");
+                break;
+            }
             r = rr;
             let cid = acc.new_case(json!({"stage": "C", "kind": "prune", "timeline": i, "now": now, "policy": pol,
                 "backups": listing.iter().map(|b| json!({"id": b.id.as_u128() as u64, "age_s": now - b.timestamp, "ts": b.timestamp, "type": format!("{:?}", b.backup_type), "parent": b.parent_id.map(|p| p.as_u128() as u64)})).collect::<Vec<_>>(),
@@ -768,7 +799,7 @@ fn main() {
     let mut seed: u64 = std::env::var("VERIF_SEED").ok().and_then(|s| s.parse().ok()).unwrap_or(1);
     std::env::remove_var("BACKUP_ALLOW_CLEAR");
     let thorough = tier == "thorough";
-    let (n_syn, n_prune, payload_budget, backups_per_history, tamper_chains) = if thorough { (2500usize, 20000usize, 200usize, 5usize, 6usize) } else { (350, 2000, 4, 4, 2) };
+    let (n_syn, n_prune, payload_budget, backups_per_history, tamper_chains) = if thorough { (2500usize, 20000usize, 200usize, 5usize, 6usize) } else { (250, 2000, 4, 4, 1) };
     // replay: run only the unit named in the file
     let mut only: Option<(String, usize)> = None;
     if let Some(p) = &replay {
@@ -787,62 +818,63 @@ fn main() {
 
     let t_start = std::time::Instant::now();
     let lap = |what: &str| eprintln!("[c12 {:6.1}s] {}", t_start.elapsed().as_secs_f64(), what);
-    // ---- D: fabricated directories (sequential; the second part runs with BACKUP_ALLOW_CLEAR=true)
-    if run_stage("D") {
-        let a = synth::run(seed, n_syn, &work, false, only_idx("D"));
+    // ---- D (second part first): restores with BACKUP_ALLOW_CLEAR=true; alone, before any thread exists
+    if run_stage("D") && only.is_none() {
+        std::env::set_var("BACKUP_ALLOW_CLEAR", "true");
+        let a = synth::run(seed ^ 0xE0E0, n_syn / 5, &work, true, None);
+        std::env::remove_var("BACKUP_ALLOW_CLEAR");
         let sh = total.case_json.len();
         total.merge(a, sh);
-        if only.is_none() {
-            std::env::set_var("BACKUP_ALLOW_CLEAR", "true");
-            let a = synth::run(seed ^ 0xE0E0, n_syn / 5, &work, true, None);
-            std::env::remove_var("BACKUP_ALLOW_CLEAR");
-            let sh = total.case_json.len();
-            total.merge(a, sh);
-        }
     }
-    lap("stage D done");
-    // ---- A: histories on the real engine, in parallel
+    lap("stage D (environment confirmation) done");
     let mut chains: Vec<(usize, PathBuf, Vec<Taken>, Cfg)> = vec![];
-    if run_stage("A") {
-        let idxs: Vec<usize> = match only_idx("A") { Some(ix) => vec![ix], None => (0..n).collect() };
-        let results: Mutex<Vec<(usize, Acc, Option<(PathBuf, Vec<Taken>, Cfg)>)>> = Mutex::new(vec![]);
-        let next = std::sync::atomic::AtomicUsize::new(0);
-        std::thread::scope(|s| {
-            for _ in 0..idxs.len().min(12) {
-                s.spawn(|| loop {
-                    let k = next.fetch_add(1, std::sync::atomic::Ordering::SeqCst);
-                    if k >= idxs.len() { break; }
-                    let (a, c) = run_history(seed, idxs[k], &work, backups_per_history);
-                    results.lock().unwrap().push((idxs[k], a, c));
-                });
+    let (mut acc_d, mut acc_c, mut acc_ab) = (None, None, vec![]);
+    std::thread::scope(|s| {
+        // ---- D: fabricated directories, and C: prune timelines, each in its own thread
+        let hd = if run_stage("D") { Some(s.spawn(|| synth::run(seed, n_syn, &work, false, only_idx("D")))) } else { None };
+        let hc = if run_stage("C") { Some(s.spawn(|| run_prune(seed, n_prune, &work, only_idx("C")))) } else { None };
+        // ---- A: histories on the real engine, in parallel
+        if run_stage("A") {
+            let idxs: Vec<usize> = match only_idx("A") { Some(ix) => vec![ix], None => (0..n).collect() };
+            let results: Mutex<Vec<(usize, Acc, Option<(PathBuf, Vec<Taken>, Cfg)>)>> = Mutex::new(vec![]);
+            let next = std::sync::atomic::AtomicUsize::new(0);
+            std::thread::scope(|s2| {
+                for _ in 0..idxs.len().min(12) {
+                    s2.spawn(|| loop {
+                        let k = next.fetch_add(1, std::sync::atomic::Ordering::SeqCst);
+                        if k >= idxs.len() { break; }
+                        let (a, c) = run_history(seed, idxs[k], &work, backups_per_history);
+                        results.lock().unwrap().push((idxs[k], a, c));
+                    });
+                }
+            });
+            let mut rs = results.into_inner().unwrap();
+            rs.sort_by_key(|x| x.0);
+            for (ix, a, c) in rs {
+                acc_ab.push(a);
+                if let Some((root, taken, cfg)) = c { chains.push((ix, root, taken, cfg)); }
             }
-        });
-        let mut rs = results.into_inner().unwrap();
-        rs.sort_by_key(|x| x.0);
-        for (ix, a, c) in rs {
-            let sh = total.case_json.len();
-            total.merge(a, sh);
-            if let Some((root, taken, cfg)) = c { chains.push((ix, root, taken, cfg)); }
         }
-    }
-    lap("stage A done");
-    // ---- B: tampering with real chains
-    if run_stage("B") || only.is_none() {
-        let mut done = 0;
-        for (ix, root, taken, _cfg) in &chains {
-            if done >= tamper_chains { break; }
-            if let Some((st, oi)) = &only { if st == "B" && oi != ix { continue; } }
-            if !taken.iter().any(|t| t.meta.backup_type == BackupType::Incremental) && done + 1 < tamper_chains { continue; }
-            let a = run_tamper(seed, *ix, root, taken, payload_budget);
-            if a.hist.contains_key("tamper_chains") { done += 1; }
-            let sh = total.case_json.len();
-            total.merge(a, sh);
+        lap("stage A done");
+        // ---- B: tampering with real chains
+        if run_stage("B") || only.is_none() {
+            let mut done = 0;
+            let want_incr = chains.iter().any(|(_, _, t, _)| t.iter().any(|x| x.meta.backup_type == BackupType::Incremental));
+            for (ix, root, taken, _cfg) in &chains {
+                if done >= tamper_chains { break; }
+                if let Some((st, oi)) = &only { if st == "B" && oi != ix { continue; } }
+                if want_incr && only.is_none() && !taken.iter().any(|t| t.meta.backup_type == BackupType::Incremental) { continue; }
+                let a = run_tamper(seed, *ix, root, taken, payload_budget);
+                if a.hist.contains_key("tamper_chains") { done += 1; }
+                acc_ab.push(a);
+            }
         }
-    }
-    lap("stage B done");
-    // ---- C: prune
-    if run_stage("C") {
-        let a = run_prune(seed, n_prune, &work, only_idx("C"));
+        lap("stage B done");
+        acc_d = hd.map(|h| h.join().unwrap());
+        lap("stage D done");
+        acc_c = hc.map(|h| h.join().unwrap());
+    });
+    for a in acc_d.into_iter().chain(acc_ab.into_iter()).chain(acc_c.into_iter()) {
         let sh = total.case_json.len();
         total.merge(a, sh);
     }
